@@ -199,8 +199,12 @@ func check(c *Ctx, r *Report) error {
 
 	// ------------------------------------------------------------ 1. the database
 	_, rows, err := threadgen.Generate(c.Repo)
+	noRows := false
 	if err != nil {
-		return err
+		// the translator cannot read the edited source (reported as a broken tie by the gen step):
+		// the oracles on the implementation below still run, so that a failing input can be found
+		r.Coverage["translator_error"] = err.Error()
+		rows, noRows = nil, true
 	}
 	names := sdf.VerifThreadNames()
 	rowByName := map[string]threadgen.Row{}
@@ -213,7 +217,7 @@ func check(c *Ctx, r *Report) error {
 	inDB := map[string]bool{}
 	for _, n := range names {
 		inDB[n] = true
-		if _, ok := rowByName[n]; !ok {
+		if _, ok := rowByName[n]; !ok && !noRows {
 			r.Violate("db:norow:"+n, fmt.Sprintf("thread database key %q has no row in initThreadLookup as parsed from the source", n), n)
 		}
 	}
